@@ -28,7 +28,11 @@ SEARCHABLE = {"C02": "all valid references over {a : / ? # @} up to 6 bytes (bot
               "C03": "all valid authorities over {a : @ [ ] 1} up to 6 bytes (both families)",
               "C20": "the C02, C03 and C12 enumerations (placement of the returned slices inside the input)",
               "C12": "all valid paths over {a / .} up to 7 bytes (forward, backward and alternating iteration, path queries)",
-              "C09": "all valid paths over {a / .} up to 7 bytes (normalized segment sequence only)",
+              "C09": "all valid paths over {a / .} up to 7 bytes (normalized segment sequence) and in-place normalize on every reference over {a : / ? .} up to 5 bytes (segment sequence up to the shield, idempotence, kind, frame, re-parse)",
+              "C04": "the C05, C10 and C11 enumerations: every edit leaves a text the real parser accepts again",
+              "C05": "every reference over {a : / ? #} up to 5 bytes x the five setters x 2-11 values each: re-parse, requested component read back, others byte-identical, path only changed by the three documented disambiguations",
+              "C10": "every reference over {a : / ? .} up to 5 bytes x push / pop / clear / symbolic_push / normalize (5 segment values): frame, re-parse, push appends exactly the segment (up to the shield), clear leaves none",
+              "C11": "~60 authorities over {a : @ 1} up to 4 bytes inside 's://<authority>' and 's://<authority>/p?q#f' x set_userinfo / set_host / set_port (3 values each), alone and followed by a second edit through the same handle: exact resulting text",
               "C07": "all pairs from ~450 short references (alphabet {a / . : ? #} up to 4 bytes + 29 hand-picked with ports, IP literals, percent-escapes), ~150 paths, ~60 authorities, 7 hosts; inputs whose percent-decoding is not UTF-8 are skipped (C19 finding)",
               "C08": "same pairs as C07: == vs cmp == Equal, antisymmetry, hasher feeds of equal values and of the views of one value (recording hasher)",
               "C13": "all IRI references over {a : / ? #} up to 5 bytes + 5 non-ASCII texts: outcome and text of 20 conversions",
